@@ -175,6 +175,10 @@ class Run:
         _CHECK = check_fn
         import multiprocessing as mp
 
+        stride = int(os.environ.get("VERIF_SMOKE_STRIDE", "0") or 0)   # development aid only (smoke-testing a tier): never set by the registered commands
+        if stride > 1:
+            cases = (c for j, c in enumerate(cases) if j % stride == 0)
+            self.caps.append("SMOKE RUN: only every %d-th case was executed (VERIF_SMOKE_STRIDE)" % stride)
         indexed = ((i, c) for i, c in enumerate(cases))
         n0 = self.cases
         if NPROC <= 1:
